@@ -817,6 +817,86 @@ fn run_mt_slow(t: char, big: usize) -> (String, String, String, String) {
     )
 }
 
+/// C01 / C10 / C11, both directions at once: a thread of the connector is stuck inside a send() of `big`
+/// bytes (the acceptor's node is asleep in its Accepted callback and reads nothing) while the acceptor's
+/// side sends three 2-byte messages back from another thread; the connector's network thread finds the
+/// connection busy when they arrive.  After the acceptor wakes up everything must have arrived on both
+/// sides although no further traffic follows.
+fn run_duplex(t: char, big: usize, stall_ms: u64) -> (String, String, String, String) {
+    let tr = transport(t);
+    let (rh, rl) = node::split::<()>();
+    let (_lid, addr) = rh.network().listen(tr, "127.0.0.1:0").unwrap();
+    let got: Arc<Mutex<Vec<Vec<u8>>>> = Arc::new(Mutex::new(vec![]));
+    let acc: Arc<Mutex<Option<Endpoint>>> = Arc::new(Mutex::new(None));
+    let (g2, a2) = (got.clone(), acc.clone());
+    let _rtask = rl.for_each_async(move |e| {
+        if let NodeEvent::Network(ne) = e {
+            match ne {
+                NetEvent::Accepted(ep, _) => {
+                    *a2.lock().unwrap() = Some(ep);
+                    std::thread::sleep(Duration::from_millis(stall_ms));
+                }
+                NetEvent::Message(_, d) => g2.lock().unwrap().push(d.to_vec()),
+                _ => {}
+            }
+        }
+    });
+    let c = TestNode::new();
+    let (ep, _) = c.handler.network().connect(tr, addr).unwrap();
+    if c.connected(DELIVERY_TIMEOUT).map(|x| x.1) != Some(true) {
+        return ("#duplex-setup".into(), "error".into(), "FAIL setup".into(), "duplex".into())
+    }
+    let deadline = Instant::now() + Duration::from_secs(3);
+    while acc.lock().unwrap().is_none() && Instant::now() < deadline {
+        std::thread::sleep(Duration::from_millis(2));
+    }
+    let Some(rep) = *acc.lock().unwrap() else {
+        return ("#duplex-setup".into(), "error".into(), "FAIL setup (no Accepted)".into(), "duplex".into())
+    };
+    let h = c.handler.clone();
+    let sender = std::thread::spawn(move || {
+        let m: Vec<u8> = (0..big).map(|i| (i * 13 + i / 257) as u8).collect();
+        (h.network().send(ep, &m), m)
+    });
+    std::thread::sleep(Duration::from_millis(150));
+    let mut back_status = vec![];
+    for i in 0..3u8 {
+        back_status.push(rh.network().send(rep, &[0, i]));
+        std::thread::sleep(Duration::from_millis(5));
+    }
+    let (st, m) = sender.join().unwrap();
+    let deadline = Instant::now() + Duration::from_millis(6000 + stall_ms);
+    loop {
+        let r_bytes: usize = got.lock().unwrap().iter().map(|d| d.len()).sum();
+        let c_bytes: usize = c.messages().iter().map(|d| d.len()).sum();
+        if (r_bytes >= big && c_bytes >= 6) || Instant::now() > deadline {
+            break
+        }
+        std::thread::sleep(Duration::from_millis(10));
+    }
+    // silence: nothing else will ever be sent on this connection
+    std::thread::sleep(Duration::from_millis(300));
+    let back = c.messages();
+    let back_flat: Vec<u8> = back.concat();
+    let fwd: Vec<u8> = got.lock().unwrap().concat();
+    let fwd_msgs = got.lock().unwrap().len();
+    rh.stop();
+    let back_ok = back_flat == vec![0, 0, 0, 1, 0, 2] && (t == 'T' || back.len() == 3);
+    let fwd_ok = fwd == m && (t == 'T' || fwd_msgs == 1);
+    let sends_ok = st == SendStatus::Sent && back_status.iter().all(|s| *s == SendStatus::Sent);
+    let imp = format!("back={} forward={}", if back_ok { "complete" } else { "incomplete" }, if fwd_ok { "complete" } else { "incomplete" });
+    let oracle = if back_ok && fwd_ok && sends_ok {
+        "ok".to_string()
+    }
+    else {
+        format!(
+            "FAIL the connector received {:?} (wanted three 2-byte messages) while it was sending {} bytes; the acceptor received {} bytes in {} messages; statuses {:?} {:?}",
+            back, big, fwd.len(), fwd_msgs, st, back_status
+        )
+    };
+    (format!("stream duplex {} {} {}", t, big, stall_ms), imp, oracle, format!("duplex{},both-directions,busy-sender", t))
+}
+
 /// C10: several threads (and the receiver's own callback thread of the *sending* node) send on one endpoint
 fn run_mt(t: char, threads: usize, per: usize, size: usize) -> (String, String, String, String) {
     let tr = transport(t);
@@ -965,6 +1045,12 @@ fn main() {
             let w = arg(4);
             if w.is_empty() { "FWT".to_string() } else { w }
         }),
+        "gen-duplex" => {
+            for t in arg(2).chars() {
+                let (c, im, o, tg) = run_duplex(t, 24 << 20, arg_u64(3, 700));
+                emit(&mut out, &c, &im, &o, &tg);
+            }
+        }
         "gen-mt" => {
             let mut rng = Rng::new(arg_u64(2, 1) ^ 0x3737);
             let n = arg_u64(3, 4);
@@ -975,6 +1061,12 @@ fn main() {
             for t in ['F', 'W'] {
                 if which.contains(&t) {
                     let (c, im, o, tg) = run_mt_slow(t, 24 << 20);
+                    emit(&mut out, &c, &im, &o, &tg);
+                }
+            }
+            for t in ['F', 'W', 'T'] {
+                if which.contains(&t) || (t == 'T' && which.contains(&'F')) {
+                    let (c, im, o, tg) = run_duplex(t, 24 << 20, 700);
                     emit(&mut out, &c, &im, &o, &tg);
                 }
             }
@@ -1058,6 +1150,10 @@ fn main() {
                 }
                 else if ws.len() == 5 && ws[0] == "stream" && ws[1] == "size" {
                     let (c, i, o, tg) = run_size(ws[2].chars().next().unwrap_or('W'), ws[3] == "c2a", ws[4].parse().unwrap_or(0));
+                    emit(&mut out, &c, &i, &o, &tg);
+                }
+                else if ws.len() == 5 && ws[0] == "stream" && ws[1] == "duplex" {
+                    let (c, i, o, tg) = run_duplex(ws[2].chars().next().unwrap_or('W'), ws[3].parse().unwrap_or(1 << 20), ws[4].parse().unwrap_or(700));
                     emit(&mut out, &c, &i, &o, &tg);
                 }
                 else if ws.len() >= 5 && ws[0] == "stream" && ws[1] == "mt" {
